@@ -176,17 +176,24 @@ PROPS = {
         assumptions=[A['A8'], A['D_FQ'], "laws of fpow / f2pow (specs/fpow.vrs: ring theory)", A['TOOLS'], "rewrites R11 (slice patterns), R4 (slice loops), R9a (terminal panic)"],
     ),
     'C08': dict(
-        units_quick=['kani:limbs', 'consts'], units_thorough=['kani:limbs', 'consts'], timeout=3000,
-        technique="contract harnesses checked by Kani/CBMC on the compiled crate: full 384-/256-bit input domain, loops bounded by the limb count with unwinding assertions (complete, not bounded)",
-        claim="PARTIAL: for FqRepr (6 limbs) and FrRepr (4 limbs), on every input: is_zero, is_odd/is_even, add_nocarry and sub_noborrow (within their "
-              "no-carry / no-borrow preconditions), div2, mul2, shr / shl by any n, num_bits, cmp (= order of the unsigned integers), From<u64>; and for Fq "
-              "and Fr on every pair of valid (reduced) Montgomery representatives: add_assign, sub_assign, negate, double give (a+b), (a-b), (-a), 2a modulo the "
-              "modulus and a reduced result, is_zero exact, zero() is 0. Checked against a schoolbook word-level reference by CBMC (bit-precise). "
-              "Method-call syntax is used as in the derived code, so an inherent method shadowing a trait method is what gets checked.",
-        not_covered=["Montgomery multiplication / squaring / mont_reduce, from_repr / into_repr, inverse, pow, sqrt, legendre, read/write_be/le - not within CBMC's reach "
-                     "(36 64x64-bit multipliers) and no Verus unit completed", "the values of the constants R2, INV, GENERATOR, ROOT_OF_UNITY (MODULUS = q resp. r, R = 1, B_COEFF = 4, NEGATIVE_ONE = -1 and the from_okm shift constants ARE checked as closed terms in unit consts)",
-                     "Ord on Fq/Fr (goes through into_repr)"],
-        assumptions=["Kani 0.68 / CBMC 6.11; the unsafe transmute constructor pairing::bls12_381::transmute::{fq, fr} and mem::transmute_copy are used to move raw limbs in and out", "rustc codegen (MIR -> goto)"],
+        units_quick=['kani:limbs', 'consts', 'mont'], units_thorough=['kani:limbs', 'consts', 'mont'], timeout=3000,
+        technique="contract-based deductive verification: Verus contracts with generated checkpoint assertions on the fully unrolled Montgomery code of ff_derive's expansion (Fq, Fr); "
+                  "contract harnesses checked by Kani/CBMC on the compiled crate for the limb layer: full 384-/256-bit input domain, loops bounded by the limb count with unwinding assertions (complete, not bounded)",
+        claim="limb layer (CBMC, bit-precise, every input): for FqRepr (6 limbs) and FrRepr (4 limbs) is_zero, is_odd/is_even, add_nocarry and sub_noborrow (within their "
+              "no-carry / no-borrow preconditions), div2, mul2, shr / shl by any n, num_bits, cmp (= order of the unsigned integers), From<u64>; ff's mac_with_carry and adc are exact; for Fq "
+              "and Fr on every pair of valid (reduced) Montgomery representatives add_assign, sub_assign, negate, double give (a+b), (a-b), (-a), 2a modulo the "
+              "modulus and a reduced result, is_zero exact, zero() is 0. "
+              "Montgomery layer (Verus, real unrolled bodies of the derive expansion, Fq and Fr): mul_assign computes the exact 2n-limb product (schoolbook rows), square the same value by "
+              "off-diagonal products, one-bit doubling and diagonal squares; mont_reduce returns a reduced res with res * 2^(64n) == input (mod q) (each round adds k_i q 2^(64i) with "
+              "k_i = r_i * INV making the low limb vanish; INV * q[0] == -1 mod 2^64 and the final carry is proved 0); with mv(x) = limbs(x) * R^-1 mod q the field value: "
+              "mul_assign / square give mv(a) mv(b) mod q, add_assign / sub_assign / double / negate give the sum / difference / double / negation mod q, zero() and one() are 0 and 1, "
+              "is_zero and == decide mv == 0 resp. equality of values, into_repr returns the canonical integer mv(x) (< q), from_repr(r) succeeds exactly for r < q with mv == r, "
+              "cmp is the order of the canonical integers. These are the contracts (D_FQ) every unit above the limb layer assumes of Fq / Fr.",
+        not_covered=["inverse (binary extended Euclid), pow / sqrt / legendre (ff's generic square-and-multiply over the exponent words), random, read/write_be/le: not under contract (assumed where used: A8, D1)",
+                     "the values of GENERATOR, ROOT_OF_UNITY (MODULUS, R, R2, INV, B_COEFF, NEGATIVE_ONE and the from_okm shift constants ARE checked: unit consts resp. by(compute) in unit mont)"],
+        assumptions=["Kani 0.68 / CBMC 6.11; the unsafe transmute constructor pairing::bls12_381::transmute::{fq, fr} and mem::transmute_copy are used to move raw limbs in and out", "rustc codegen (MIR -> goto)",
+                     "unit mont sees the representation type through the limb-level contracts that kani:limbs proves (lt / gt / eq / cmp = integer order, add_nocarry, sub_noborrow, mul2, is_zero, From<u64>), and ff's mac_with_carry / adc through theirs",
+                     "rewrites R16 (derived comparison operators on the representation type written as the contracted methods), R17 (::ff:: paths), R18 (format! of the error message -> uninterpreted stub)", A['TOOLS']],
     ),
     'C10': dict(
         standins=['sum_of_products'],
